@@ -156,3 +156,39 @@ Proof.
   rewrite E1 in E1'. rewrite E2 in E2'. injection E1' as <- <-. injection E2' as <- <-.
   rewrite R1, R2. apply dot_Rhor_inv.
 Qed.
+
+(* there and back returns the same direction for EVERY input longitude (not only canonical
+   ones): the result is the direction's canonical representative *)
+Theorem hor_roundtrip_vec ha de ph az el : -90 < de < 90 ->
+  f_equatorial2horizontal Rops (ang ha) (ang de) (ang ph) = VTuple [ang az; ang el] ->
+  -90 < el < 90 ->
+  exists x y, f_horizontal2equatorial Rops (ang az) (ang el) (ang ph) = VTuple [ang x; ang y]
+    /\ uvec (d2r x) (d2r y) = uvec (d2r ha) (d2r de) /\ y = de /\ -180 < x <= 180.
+Proof.
+  intros H0 H1 H2.
+  destruct (eq2hor_rotation ha de ph H0) as (o1' & o2' & E1 & R1 & _ & _).
+  rewrite H1 in E1. injection E1 as <- <-.
+  destruct (hor2eq_rotation az el ph H2) as (x & y & E2 & R2 & Hx & Hy).
+  exists x, y. rewrite R1, Rhor_inv_l in R2. repeat split; try assumption; try lra.
+  apply d2r_inj. apply (uvec_inj_lat (d2r x) (d2r y) (d2r ha) (d2r de)); [| | assumption].
+  - destruct Hy as [A B]. apply d2r_le in A, B. rewrite d2r_m90 in A. rewrite d2r_90 in B. lra.
+  - destruct H0 as [A B]. apply d2r_lt in A, B. rewrite d2r_m90 in A. rewrite d2r_90 in B. lra.
+Qed.
+
+(* there and back returns the same direction for EVERY input longitude (not only canonical
+   ones): the result is the direction's canonical representative *)
+Theorem equ_h_roundtrip_vec az el ph ha de : -90 < el < 90 ->
+  f_horizontal2equatorial Rops (ang az) (ang el) (ang ph) = VTuple [ang ha; ang de] ->
+  -90 < de < 90 ->
+  exists x y, f_equatorial2horizontal Rops (ang ha) (ang de) (ang ph) = VTuple [ang x; ang y]
+    /\ uvec (d2r x) (d2r y) = uvec (d2r az) (d2r el) /\ y = el /\ -180 < x <= 180.
+Proof.
+  intros H0 H1 H2.
+  destruct (hor2eq_rotation az el ph H0) as (o1' & o2' & E1 & R1 & _ & _).
+  rewrite H1 in E1. injection E1 as <- <-.
+  destruct (eq2hor_rotation ha de ph H2) as (x & y & E2 & R2 & Hx & Hy).
+  exists x, y. rewrite R1, Rhor_inv_r in R2. repeat split; try assumption; try lra.
+  apply d2r_inj. apply (uvec_inj_lat (d2r x) (d2r y) (d2r az) (d2r el)); [| | assumption].
+  - destruct Hy as [A B]. apply d2r_le in A, B. rewrite d2r_m90 in A. rewrite d2r_90 in B. lra.
+  - destruct H0 as [A B]. apply d2r_lt in A, B. rewrite d2r_m90 in A. rewrite d2r_90 in B. lra.
+Qed.
